@@ -264,9 +264,34 @@ def interleave_rules(ctx, rep):
                             cl_ok = r[0] == "binop" and r[1] == "Eq" and r[2] == ("param", 2) and r[3][:2] == ("int", 0)
                     if cl_ok and scanned == ("param", 1):
                         count_form = canon(ctx, se, i["term"])
+        # iterator form: lead = key.iter().position(|&b| b != 0).unwrap_or(key.len())
+        pos_form = None
+        for bb, i in se.term_info.items():
+            if count_form is None and i.get("k") == "call" and i["name"] == "std::option::Option::<T>::unwrap_or":
+                src = strip(i["args"][0])
+                dflt = util.numnorm(i["args"][1])
+                if not (util.is_call(src) and src[1].endswith("as std::iter::Iterator>::position") or util.is_call(src, "std::iter::Iterator::position")):
+                    continue
+                it = se.call_old.get((src[3][:2], 0)) if strip(src[2][0])[0] == "mutref" else strip(src[2][0])
+                it = strip(it) if it is not None else None
+                if it is None or not util.is_call(it, "core::slice::<impl [T]>::iter"):
+                    continue
+                scanned = canon(ctx, se, it[2][0])
+                cl = src[2][1]
+                cl_ok = False
+                if cl[0] == "agg" and cl[1] == "closure" and not cl[4]:
+                    cse = ctx.flat.run(cl[2])
+                    if cse is not None:
+                        r = util.numnorm(cse.ret)
+                        # the predicate is exactly `byte != 0` on the item
+                        cl_ok = r[0] == "binop" and r[1] == "Ne" and r[2] == ("param", 2) and r[3][:2] == ("int", 0)
+                d_ok = dflt[:2] == ("int", 32) or dflt[0] == "len" and canon(ctx, se, dflt[1]) == ("param", 1) or util.is_call(dflt, "core::slice::<impl [T]>::len") and canon(ctx, se, dflt[2][0]) == ("param", 1)
+                if cl_ok and d_ok and scanned == ("param", 1):
+                    count_form = canon(ctx, se, i["term"])
+                    pos_form = True
         if count_form is not None:
             good = True
-            why = "lead = number of leading zero bytes (iter().take_while(|b| b == 0).count() over the whole secret)"
+            why = "lead = number of leading zero bytes (%s over the whole secret)" % ("iter().position(|b| b != 0).unwrap_or(len)" if pos_form else "iter().take_while(|b| b == 0).count()")
     rep.check(good, "interleave", fn, "linear-scan", why, "leading-zero stripping is not a plain linear scan over the whole secret: " + why, body.loc())
     # the scanned array is the whole 32-byte key (RangeFull slice of the single field)
     src_ok = count_form is not None
